@@ -139,10 +139,11 @@ class Monitor:
     def expired(self, row, now):
         return row['exp'] is not None and row['exp'] <= now
 
-    def step(self, op, target, now, result, before, after, readings, post_vol, stored_key=None):
+    def step(self, op, target, now, result, before, after, readings, post_vol, stored_key=None, written_size_upper=None):
         """op: API name; target: (dbkey, raw) the call addresses (or None); result: python result of the call;
         before/after: rowdict; readings: values returned by volume() during the call; post_vol: volume seen by an
-        independent connection after the call; stored_key: for push the key returned."""
+        independent connection after the call; stored_key: for push the key returned; written_size_upper: an upper bound
+        on the size of the value the call stores (only used when a call evicts without consulting volume())."""
         out = []
         st = self.stats
         st['calls'] += 1
@@ -188,7 +189,8 @@ class Monitor:
         pseudo = None
         if stored and not any(r['k'] == target for r in survivors) and not any(r['k'] == target for r in gone):
             # inserted and evicted by the very same call
-            pseudo = {'rowid': None, 'k': target, 'store': now, 'exp': None, 'access': now, 'count': 0, 'size': None, 'pseudo': True}
+            pseudo = {'rowid': None, 'k': target, 'store': now, 'exp': None, 'access': now, 'count': 0, 'size': written_size_upper,
+                      'pseudo': True}
             gone.append(pseudo)
         exp_gone = [r for r in gone if self.expired(r, now) and not r.get('pseudo')]
         pol_gone = [r for r in gone if r not in exp_gone]
@@ -375,6 +377,19 @@ def config_for(rng, policy, cull_limit, big=False):
 # running one history under the monitor
 
 
+def size_upper(v, protocol):
+    """Upper bound on the `size` a stored value can be accounted with: nothing larger than its serialised form is written."""
+    import pickle
+    if isinstance(v, Stream):
+        return len(v.data)
+    n = len(pickle.dumps(v, protocol=protocol))
+    if isinstance(v, str):
+        n = max(n, len(v.encode('utf-8', 'surrogatepass')))
+    if isinstance(v, bytes):
+        n = max(n, len(v))
+    return n
+
+
 def target_of(r, disk, item):
     a = item['args']
     if 'k' in a:
@@ -402,8 +417,9 @@ def monitor_trace(r, tr, cfg, stats):
         if op == 'push' and not (isinstance(rec['res'], tuple) and rec['res'] and rec['res'][0] == 'raise'):
             stored_key = (rec['res'], 1)
         p0 = stats['writes_evicted_policy'] + stats['cull_evicted_policy']
+        wsu = size_upper(r.objs[item['args']['v']], cfg.protocol) if 'v' in item['args'] else 64
         for sig, desc in mon.step(op, target, item['now'], rec['res'], before, after, r.readings_per_call[i],
-                                  r.post_per_call[i], stored_key):
+                                  r.post_per_call[i], stored_key, wsu):
             hits.append((i, sig, desc))
         if stats['writes_evicted_policy'] + stats['cull_evicted_policy'] > p0:
             evicted = True
@@ -640,14 +656,17 @@ def fanout_history(ctx, res, stats, shards, policy, cull_limit, nops, stream, ex
             k = rng.choice(keys)
             for rd in readings:
                 del rd[:]
+            wsu = 64
             try:
                 if op == 'set':
                     v = rng.choice(vals)
+                    wsu = size_upper(v, 5)
                     ttl = rng.choice([None, None, None, 1, 2])
                     result = fc.set(k, v.open() if isinstance(v, Stream) else v, expire=ttl, read=isinstance(v, Stream))
                     log.append((op, repr(k), now, repr(v)[:16], ttl))
                 elif op == 'add':
                     v = rng.choice(vals)
+                    wsu = size_upper(v, 5)
                     result = fc.add(k, v.open() if isinstance(v, Stream) else v, read=isinstance(v, Stream))
                     log.append((op, repr(k), now, repr(v)[:16], None))
                 elif op == 'get':
@@ -675,7 +694,7 @@ def fanout_history(ctx, res, stats, shards, policy, cull_limit, nops, stream, ex
                                          independent_volume(sh.directory))
                 elif idx == idx_t:
                     out = mons[idx].step(op, dbkey(sh.disk, k), now, result, befores[idx], after, list(readings[idx]),
-                                         independent_volume(sh.directory))
+                                         independent_volume(sh.directory), None, wsu)
                 else:
                     out = mons[idx].step('len', None, now, None, befores[idx], after, [], independent_volume(sh.directory))
                     out = [(('fanout_other_shard_changed' if s == 'read_removed' else s), dsc) for s, dsc in out]
@@ -764,7 +783,7 @@ RULE = ('random histories of set/add/get/incr/push/touch/delete/pop/contains/cul
 
 def report(res):
     """One line per monitor hit / disagreement, so that the failing input is readable without opening the replay file."""
-    for v in res.violations:
+    for v in res.violations[:12]:
         c = v.case if isinstance(v.case, dict) else {}
         cfg = c.get('config', {})
         print('C09-MONITOR [%s] %s  (policy=%s cull_limit=%s size_limit=%s, %s call(s) in the replay)' % (
@@ -778,19 +797,18 @@ def run(ctx):
     stats = new_stats()
     kept = []
     if ctx.quick:
-        plan = plan_for(ctx, 3, 70, big_every=6)
-        nmodel = 20
-        nfan = 8
+        plan = plan_for(ctx, 5, 70, big_every=6)
+        nmodel, nfan, ndirected, ndirected_model = 32, 12, 9, 6
     else:
-        plan = plan_for(ctx, 14, 110, big_every=5)
-        nmodel = 90
-        nfan = 32
+        plan = plan_for(ctx, 60, 110, big_every=5)
+        nmodel, nfan, ndirected, ndirected_model = 400, 96, 48, 16
     # monitor on every history; the first `nmodel` small-value histories also go through the model
     small = [p for p in plan if not p[5]]
     bigp = [p for p in plan if p[5]]
     monitored_histories(ctx, res, stats, small[:nmodel], keep_for_model=kept)
     monitored_histories(ctx, res, stats, small[nmodel:] + bigp)
-    directed_cull_histories(ctx, res, stats, 6 if ctx.quick else 24, kept if ctx.quick else None)
+    directed_cull_histories(ctx, res, stats, ndirected_model, kept)
+    directed_cull_histories(ctx, res, stats, ndirected - ndirected_model, None)
     fanout_checks(ctx, res, stats, nfan)
     witnesses(res)
     if not ctx.search_mode:
